@@ -634,14 +634,11 @@ class ISO8601Sequence(SequenceBase):
                  self.recurrence.min_point is not None) and
                 (self.recurrence.end_point is not None or
                  self.recurrence.max_point is not None))):
-            curr = None
-            prev = None
+            ret = None
             for recurrence_iso_point in self.recurrence:
-                prev = curr
-                curr = recurrence_iso_point
-            ret = ISO8601Point(str(curr))
-            if self.exclusions and ret in self.exclusions:
-                return ISO8601Point(str(prev))
+                point = ISO8601Point(str(recurrence_iso_point))
+                if not self.exclusions or point not in self.exclusions:
+                    ret = point
             return ret
         return None
 
